@@ -69,6 +69,9 @@ func (s *Sim) ParQuery(p *ParF, tgt int) ([]ecs.Relation, []ecs.Entity, int) {
 		style := RSIdx
 		if !p.F.CanRegister() {
 			style = RSID
+			if (tgt+label)%2 == 0 {
+				style = RSType // ecs.Rel[T]: resolved to a component ID on use
+			}
 		}
 		qrels = s.relations(p.Spec.Required(), map[int]int{t: label}, []int{t}, style)
 	}
